@@ -5,7 +5,7 @@ from vlib import conclude
 import drvlib as D
 
 OBLIGATIONS = ['Cvise.C16.step_improvement_le', 'Cvise.C16.limit_stops', 'Cvise.C16.limit_zero_is_unlimited',
-               'Cvise.C09.bug_dirs_step', 'Cvise.D.isAccept_iff', 'Cvise.C16.limit_not_before', 'Cvise.C16.accepts_at_most_limit', 'Cvise.C09.report_dirs_within_limits']
+               'Cvise.C09.bug_dirs_step', 'Cvise.D.isAccept_iff', 'Cvise.C16.limit_not_before', 'Cvise.C16.accepts_at_most_limit', 'Cvise.C09.report_dirs_within_limits', 'Cvise.C16.giveup_abandons']
 
 
 def oracle(scen, obs):
